@@ -258,7 +258,12 @@ def _corp(*p):
 def make_jobs(thorough, stage_dir):
     """list of jobs: dict(tool, kind, argv (with {out} = fresh dir), inputs [paths], copy {name: src}
     files copied into the run dir first, note).  Later pipeline stages take the FIRST run's output
-    of the earlier stage as their fixed input (each stage is judged as a function of its input)."""
+    of the earlier stage as their fixed input (each stage is judged as a function of its input).
+    `bondmachine` rewrites its -bondmachine-file (os.Create + Jsoner) at the end of EVERY invocation, so a
+    machine file shared between processes is truncated under a concurrent reader ("unexpected end of JSON
+    input", exit 2 in about 1 % of runs when the three bmapi flavours ran side by side on one staged file)
+    and later runs read an earlier run's rewrite: every bondmachine run therefore gets a private copy of the
+    staged machine in its run directory; the rewritten file is one more compared artefact."""
     repo = vlib.REPO
     jobs = []
     chooser = ["-chooser-min-word-size", "-chooser-force-same-name"]
@@ -306,8 +311,8 @@ def make_jobs(thorough, stage_dir):
                 st2 = os.path.join(stage_dir, "nbbm-" + net.replace(".json", ""))
                 jobs.append({"tool": "bondmachine", "kind": "create-verilog", "after": jobs[-1], "stage": st2, "stage_file": "bm.json",
                              "inputs": ["<first bm.json of basm on neuralbond output>", _corp("empty_simbox.json")],
-                             "cwd_out": True,
-                             "argv": [_bin("bondmachine"), "-bondmachine-file", os.path.join(st2, "bm.json"), "-create-verilog",
+                             "cwd_out": True, "copy": {"bm.json": os.path.join(st2, "bm.json")},
+                             "argv": [_bin("bondmachine"), "-bondmachine-file", "{out}/bm.json", "-create-verilog",
                                       "-verilog-flavor", "iverilog", "-verilog-simulation", "-simbox-file", _corp("empty_simbox.json")]})
     # neuralbond on a net with more than 64 weights that all feed the same two nodes (any per-node counter
     # updated from several goroutines is contended): always 16 threads, at least 10 runs; and once under
@@ -328,7 +333,8 @@ def make_jobs(thorough, stage_dir):
         st = os.path.join(stage_dir, "bm-" + tag)
         jobs.append({"tool": "bondmachine", "kind": "create-verilog", "after": bj, "stage": st, "stage_file": "bm.json",
                      "inputs": ["<first bm.json of basm on %s>" % bj["inputs"][0], _corp("empty_simbox.json")], "cwd_out": True,
-                     "argv": [_bin("bondmachine"), "-bondmachine-file", os.path.join(st, "bm.json"), "-create-verilog",
+                     "copy": {"bm.json": os.path.join(st, "bm.json")},
+                     "argv": [_bin("bondmachine"), "-bondmachine-file", "{out}/bm.json", "-create-verilog",
                               "-verilog-flavor", "iverilog", "-verilog-simulation", "-simbox-file", _corp("empty_simbox.json")]})
     # bondmachine -create-verilog for a board with the BMAPI extra module, every flavour the CLI accepts, on the
     # machine with six inputs and three outputs (the port lists of the module come out of a map)
@@ -336,14 +342,14 @@ def make_jobs(thorough, stage_dir):
     if many and os.path.exists(_corp("bmapi_map_6in_3out.json")):
         st = os.path.join(stage_dir, "bmapi-many")
         for fl, ver in (("aximm", ""), ("uartusb", ""), ("axist", "basic")) + ((("axist", "optimized"),) if thorough else ()):
-            argv = [_bin("bondmachine"), "-bondmachine-file", os.path.join(st, "bm.json"), "-register-size", "8", "-create-verilog",
+            argv = [_bin("bondmachine"), "-bondmachine-file", "{out}/bm.json", "-register-size", "8", "-create-verilog",
                     "-verilog-flavor", "zedboard", "-verilog-mapfile", _corp("board_map_clk_reset.json"), "-use-bmapi",
                     "-bmapi-flavor", fl, "-bmapi-language", "c", "-bmapi-mapfile", _corp("bmapi_map_6in_3out.json"),
                     "-bmapi-liboutdir", "lib", "-bmapi-modoutdir", "mod", "-bmapi-auxoutdir", "aux"]
             if ver:
                 argv += ["-bmapi-flavor-version", ver]
             jobs.append({"tool": "bondmachine", "kind": "create-verilog-bmapi-" + fl + ("-" + ver if ver else ""), "after": many,
-                         "stage": st, "stage_file": "bm.json", "cwd_out": True,
+                         "stage": st, "stage_file": "bm.json", "cwd_out": True, "copy": {"bm.json": os.path.join(st, "bm.json")},
                          "inputs": ["<first bm.json of basm on %s>" % many["inputs"][0], _corp("bmapi_map_6in_3out.json"),
                                     _corp("board_map_clk_reset.json")], "argv": argv})
     # bmqsim -> basm
